@@ -560,24 +560,21 @@ class simplify_chained_calls(FuncADLNodeTransformer):
     def visit_Lambda(self, node: ast.Lambda):
         """The lambda's own parameters hide any outer definition of the same name while
         its body is visited. And if an argument that could be substituted into the body
-        mentions a name equal to one of the parameters, that parameter is renamed first
+        mentions a name equal to one of the parameters, the parameters are renamed first
         so the substituted expression keeps referring to what it referred to before.
         """
         names_in_substitutions = self._arg_stack.names_in_definitions()
+        if any(a.arg in names_in_substitutions for a in node.args.args):
+            # Rename in the lambda itself, before anything is substituted: what gets
+            # substituted can be visited again and must not be touched by the renaming.
+            node = make_args_unique(node)
+
         with stack_frame(self._arg_stack):
-            new_arg_names = []
             for a in node.args.args:
-                new_name = arg_name() if a.arg in names_in_substitutions else a.arg
-                new_arg_names.append(new_name)
-                self._arg_stack.define_name(a.arg, ast.Name(new_name, ast.Load()))
+                self._arg_stack.define_name(a.arg, ast.Name(a.arg, ast.Load()))
             new_body = self.visit(node.body)
 
-        new_args = copy.copy(node.args)
-        new_args.args = [
-            ast.arg(arg=new_name, annotation=None) if new_name != a.arg else a
-            for new_name, a in zip(new_arg_names, node.args.args)
-        ]
-        return ast.Lambda(args=new_args, body=new_body)
+        return ast.Lambda(args=node.args, body=new_body)
 
     def visit_Name(self, name_node):
         "Do lookup and see if we should translate or not."
